@@ -225,18 +225,29 @@ CHECKS["C06"] = {
         {"harness": "VerifC06Att", "params": {"k": 4, "ops": [30, 33, 19, 27], "rev": 0, "cont": 1}},
         {"harness": "VerifC06Att", "params": {"k": 3, "ops": [0, 3, 9, 18], "rev": 1, "cont": 1}, "reversemaps": True},
         {"harness": "VerifC06Await", "params": {}},
+        {"harness": "VerifC06Contrib", "params": {"k": 3, "ops": _c06_patterns(3), "plural": 0, "rev": 0}},
+        {"harness": "VerifC06Contrib", "params": {"k": 3, "ops": [0, 1, 3, 9, 10], "plural": 1, "rev": 0}},
+        {"harness": "VerifC06Contrib", "params": {"k": 3, "ops": [0, 3, 9], "plural": 0, "rev": 1}, "reversemaps": True},
+        {"harness": "VerifC06Proposal", "params": {"k": 3, "ops": _c06_patterns(3)}},
+        {"harness": "VerifC06Agg", "params": {}},
     ],
     "thorough": [
+        {"harness": "VerifC06Contrib", "params": {"k": 4, "ops": _c06_patterns(4), "plural": 0, "rev": 0}, "timeout_ms": 300000},
+        {"harness": "VerifC06Contrib", "params": {"k": 4, "ops": _c06_patterns(4, range(0, 81, 2)), "plural": 1, "rev": 0}, "timeout_ms": 300000},
+        {"harness": "VerifC06Contrib", "params": {"k": 3, "ops": _c06_patterns(3), "plural": 0, "rev": 1}, "reversemaps": True},
+        {"harness": "VerifC06Proposal", "params": {"k": 4, "ops": _c06_patterns(4)}},
+        {"harness": "VerifC06Proposal", "params": {"k": 5, "ops": _c06_patterns(5, range(0, 243, 5))}},
+        {"harness": "VerifC06Agg", "params": {}, "cross": True},
         {"harness": "VerifC06Att", "params": {"k": 4, "ops": _c06_patterns(4), "rev": 0, "cont": 1}, "timeout_ms": 300000},
         {"harness": "VerifC06Att", "params": {"k": 4, "ops": _c06_patterns(4, range(0, 81, 3)), "rev": 1, "cont": 1}, "reversemaps": True, "timeout_ms": 300000},
         {"harness": "VerifC06Att", "params": {"k": 5, "ops": [90, 99, 57, 81, 84, 111, 120], "rev": 0, "cont": 1}, "timeout_ms": 300000},
         {"harness": "VerifC06Await", "params": {}, "cross": True},
     ],
     "bounds": {
-        "quick": "attester duties: every sequence of k=3 operations (Store of a two-entry set / registration of a blocking query / expiry of a slot; 27 kind patterns, plus 4 patterns of length 4) over 2 slots x 3 committee indices x 2 validator indices, with slot, committee, validator, head, source and target symbolic; both map iteration orders for the two-entry sets on selected patterns; the real AwaitAttestation immediate and blocked-then-woken; expired duty refused",
-        "thorough": "all 81 kind patterns of length 4, selected patterns of length 5",
+        "quick": "sync contributions (2 slots x 2 subcommittees x 2 block roots, symbolic aggregation bits and signature; two-entry sets as two validators or as one validator's plural SyncContributions) and proposals (2 slots, symbolic graffiti, phase0 blocks): every sequence of k=3 operations Store / blocking query / expiry against an exact ghost store, failed stores included; aggregated attestations: store, read, store under the same key with symbolic bits and signature, read (KNOWN-FINDING C06-agg); attester duties: every sequence of k=3 operations (Store of a two-entry set / registration of a blocking query / expiry of a slot; 27 kind patterns, plus 4 patterns of length 4) over 2 slots x 3 committee indices x 2 validator indices, with slot, committee, validator, head, source and target symbolic; both map iteration orders for the two-entry sets on selected patterns; the real AwaitAttestation immediate and blocked-then-woken; expired duty refused",
+        "thorough": "all 81 kind patterns of length 4, selected patterns of length 5; contributions and proposals with k=4 (proposals k=5 selected)",
     },
-    "outside": "proposal, aggregate-attestation and sync-contribution stores (their versioned go-eth2-client types are not encoded; the clash logic has the same shape); cancellation of queries; real SSZ/JSON (Clone = structural deep copy, String()/HashTreeRoot() = ideal injective functions of all fields); arbitrary pre-emption (one mutex: sequences of whole critical sections)",
+    "outside": "aggregated attestations beyond the two-store history of VerifC06Agg and other than phase0-versioned ones (Electra committee bits); proposals other than phase0 blocks; cancellation of queries; real SSZ/JSON (Clone = structural deep copy, String()/HashTreeRoot() = ideal injective functions of all fields); arbitrary pre-emption (one mutex: sequences of whole critical sections)",
     "assumptions": [
         "core data Clone() is a structural deep copy; go-eth2-client String() and HashTreeRoot() are injective functions of the full field tuple",
         "blocking queries are registered exactly as AwaitAttestation does (append + resolve under the lock) and observed through their response channels",
@@ -353,21 +364,27 @@ CHECKS["C18"] = {
     "parallel": 4,
     "quick": [
         {"pkg": "./core/dutydb", "harness": "VerifC18DutyDB", "params": {}},
+        {"pkg": "./core/dutydb", "harness": "VerifC18Contrib", "params": {}},
+        {"pkg": "./core/dutydb", "harness": "VerifC18Proposal", "params": {}},
+        {"pkg": "./core/dutydb", "harness": "VerifC18Agg", "params": {}},
         {"pkg": "./core/parsigdb", "harness": "VerifC18ParSigDB", "params": {}},
         {"pkg": "./core/aggsigdb", "harness": "VerifC18AggSigDB", "params": {}},
         {"pkg": "./core/sigagg", "harness": "VerifC18SigAgg", "params": {}},
     ],
     "thorough": [
         {"pkg": "./core/dutydb", "harness": "VerifC18DutyDB", "params": {}, "cross": True},
+        {"pkg": "./core/dutydb", "harness": "VerifC18Contrib", "params": {}, "cross": True},
+        {"pkg": "./core/dutydb", "harness": "VerifC18Proposal", "params": {}, "cross": True},
+        {"pkg": "./core/dutydb", "harness": "VerifC18Agg", "params": {}, "cross": True},
         {"pkg": "./core/parsigdb", "harness": "VerifC18ParSigDB", "params": {}, "cross": True},
         {"pkg": "./core/aggsigdb", "harness": "VerifC18AggSigDB", "params": {}, "cross": True},
         {"pkg": "./core/sigagg", "harness": "VerifC18SigAgg", "params": {}, "cross": True},
     ],
     "bounds": {
-        "quick": "object-identity (may-alias) queries over the engine's heap after one concrete operation sequence per component with symbolic contents: dutydb (store attestation, mutate input, read x3 incl. committee-0 alias, mutate result, read), parsigdb (two internal stores reaching threshold 2 of 3, two internal and two threshold subscribers; inputs / stored entries / every subscriber's objects pairwise), aggsigdb MemDBV2 (store, mutate input, read x2, mutate result, read), sigagg (two subscribers)",
+        "quick": "dutydb also for sync contributions, proposals (phase0 block) and aggregated attestations (first store and a second store of the same key; callers mutate their inputs afterwards; two reads; a reader mutates its result); object-identity (may-alias) queries over the engine's heap after one concrete operation sequence per component with symbolic contents: dutydb (store attestation, mutate input, read x3 incl. committee-0 alias, mutate result, read), parsigdb (two internal stores reaching threshold 2 of 3, two internal and two threshold subscribers; inputs / stored entries / every subscriber's objects pairwise), aggsigdb MemDBV2 (store, mutate input, read x2, mutate result, read), sigagg (two subscribers)",
         "thorough": "same with both solvers",
     },
-    "outside": "whether the real Clone implementations (JSON/SSZ round trips) are deep: Clone is a structural deep copy in the engine, so the claim is 'components clone at every boundary'; dutydb proposal / aggregate / sync-contribution reads (AwaitProposal and AwaitSyncContribution hand out the stored pointer just like AwaitAttestation did before the repair - same family, not encoded); aggsigdb v1 wrappers; fetcher, scheduler, validatorapi fan-outs",
+    "outside": "whether the real Clone implementations (JSON/SSZ round trips) are deep: Clone is a structural deep copy in the engine, so the claim is 'components clone at every boundary'; versioned types other than their phase0 form; fetcher / scheduler / validatorapi fan-out",
     "assumptions": [
         "harness SignedData types with reference semantics make a missing Clone visible as shared memory",
         "Clone() of charon core data types = structural deep copy",
